@@ -60,7 +60,9 @@ type gen6 struct {
 }
 
 var textCatalog = []string{"plain text", "x", "two words", "with 'single' quotes", "semi;colon", "curly{brace}", "slash/and//slashes", "star/*not comment*/", "plus + sign", "tab\there",
-	"line\nbreak", "quote\"inside", "back\\slash", "é世界", "trailing space ", " leading", "", "a", "1234", "-5", "true", "module", "leaf x { type string; }", "$var @at #hash", "a/b:c", "100%"}
+	"line\nbreak", "quote\"inside", "back\\slash", "é世界", "trailing space ", " leading", "", "a", "1234", "-5", "true", "module", "leaf x { type string; }", "$var @at #hash", "a/b:c", "100%",
+	// a backslash followed by n, t, backslash or a double quote: two characters each, which only a double-quoted string decodes
+	"literal\\nnot a line break", "literal\\ttab", "two\\\\backslashes", "bs\\\"dq", "ends with backslash\\"}
 
 var styleNames = []string{"dquote", "squote", "unquoted", "concat", "dquote-escapes", "concat-many"}
 
